@@ -951,6 +951,43 @@ def run_round4(run, r, unit, model, n):
             mb = None
         if mb is None or mb != b or mbb != bb or mf != fr_:
             run.mismatch("ops:current-values", cmd[:300], li[:200], lm[:200])
+    # ---- bin_distance_from_boundaries on real (non-periodic and periodic) variables
+    bl, bm = [], []
+    for k in range(max(8, n // 10)):
+        nd = r.choice([1, 2, 3])
+        cvs, xs = [], []
+        for d in range(nd):
+            w = r.choice([1.0, 0.5, 0.25, 2.0]); lo = V.dyadic(r, -4, 4); m = r.randint(1, 5)
+            up = lo + m * w
+            cvs.append({"lower": lo, "upper": up, "width": w, "period": (up - lo) if r.random() < 0.3 else 0.0, "n": m})
+            q = r.random()
+            xs.append(lo + r.randint(-1, m + 1) * w if q < 0.35 else (lo - r.randint(1, 15) * w / 8 if q < 0.5 else
+                      (up + r.randint(1, 15) * w / 8 if q < 0.65 else lo + r.randint(0, 8 * m) * w / 8)))
+        bl.append("SW " + sspec(1, cvs, cvs, []) + " BDIST " + " ".join(V.hexf(x) for x in xs))
+        bm.append((cvs, xs))
+    rc1, oi, e1 = V.run_lines(unit, bl)
+    ml = ["BDIST %d %s %s %s %s %s" % (len(cvs), " ".join("1" if c["period"] > 0 else "0" for c in cvs), " ".join(V.hexf(c["lower"]) for c in cvs),
+                                       " ".join(V.hexf(c["upper"]) for c in cvs), " ".join(V.hexf(c["width"]) for c in cvs), " ".join(V.hexf(x) for x in xs))
+          for cvs, xs in bm]
+    rc2, om, e2 = V.run_lines(model, ml)
+    for cmd, (cvs, xs), li, lm in zip(bl, bm, oi, om + ["?"] * len(bl)):
+        run.count(cmd, True)
+        run.dist("ops:bin-distance")
+        try:
+            got = float.fromhex(li.split()[0])
+        except (ValueError, IndexError):
+            run.mismatch("ops:bin-distance", cmd[:300], li[:200], lm[:200]); continue
+        cand = [v_ for c, x in zip(cvs, xs) if c["period"] == 0 for v_ in ((x - c["lower"]) / c["width"], (c["upper"] - x) / c["width"])]
+        want = min(cand) if cand else 1e16
+        if got != want:
+            run.violation("ops:bin-distance", "values %s on boundaries %s..%s (periodic %s): distance from the boundaries %r bins, the smallest of the signed distances is %r" % (
+                xs, [c["lower"] for c in cvs], [c["upper"] for c in cvs], [int(c["period"] > 0) for c in cvs], got, want), {"kind": "unit", "case": cmd, "impl": li})
+        try:
+            mv = float.fromhex(lm)
+        except ValueError:
+            mv = None
+        if mv != got:
+            run.mismatch("ops:bin-distance", cmd[:300], li[:200], lm[:200])
     # ---- add_extra_bin on real variables
     xl, xm = [], []
     for k in range(max(6, n // 10)):
